@@ -22,6 +22,7 @@ type coreProfile struct {
 	keepMode  bool // the NoDelay calls leave the no-delay MODE alone (first argument -1): boundary B4
 	growWnd   bool // a stalled reader's endpoint enlarges its receive window mid-stall
 	shrinkWnd bool // ... or lowers it below what already awaits the reader (C04: the advertisement stays truthful)
+	ccReconf  int  // % of ticks with a run-time NoDelay call that leaves congestion control ON (interval change only)
 	slowTx    int  // % of cases in which an endpoint's output callback blocks (time passes inside flush / Input / Update)
 	stall     int // % of cases in which one reader pauses for a while
 	fec       int // % of deliveries fed as non-regular (FEC-recovered) packets
@@ -263,6 +264,9 @@ func runCoreHistory(s *coreSim, rng *vrng, p coreProfile) (info coreCaseInfo) {
 			}
 			if p.setmtu > 0 && rng.chance(p.setmtu) {
 				s.SetMtu(e, rng.pick(0, 24, 25, 26, 50, 100, 576, 600, 1400, 1500, 1501, 1524, 2000, -1, 65536+25))
+			}
+			if p.ccReconf > 0 && s.k[e].nocwnd == 0 && rng.chance(p.ccReconf) {
+				s.NoDelay(e, -1, rng.pick(10, 20, 40, 100), -1, 0)
 			}
 			if p.reconf > 0 && rng.chance(p.reconf) {
 				if rng.chance(50) {
